@@ -441,6 +441,14 @@ func (e *Explorer) loadLV(s *pstate, lv *T, ty types.Type) *T {
 	n.Ty = ty
 	if !e.W.stableLV(lv) {
 		n.E = s.lvEpoch(lv)
+		if ty != nil && !untracked(lv) {
+			if stt, ok := ty.Underlying().(*types.Struct); ok {
+				n.FV = map[string]int{}
+				for i := 0; i < stt.NumFields(); i++ {
+					n.FV[stt.Field(i).Name()] = s.ver[stt.Field(i).Name()]
+				}
+			}
+		}
 	}
 	return &n
 }
